@@ -134,6 +134,8 @@ def check_xml(chk: Check) -> None:
         if sc["kind"] == "attr":
             if sc["sel"] == "all":
                 results = None
+            elif sc["sel"] == "empty":
+                results = []
             elif sc["sel"] == "none":
                 results = [_result(Path("doc.xml"), 1, 1, "decoy")]  # a finding on the XML declaration line: no element there
             else:
